@@ -289,6 +289,16 @@ func c20Inputs(loader string, r *rand.Rand, n int) [][]byte {
 	if loader != "grb" && len(seeds) > 0 {
 		out = append(out, c20EdgeInputs(seeds[r.Intn(len(seeds))])...)
 	}
+	if loader == "grl" {
+		// the targeted documents of the acceptance check (empty scopes, unbalanced brackets, cut-off
+		// rules, boundary literals, every escape class): 25 verbatim, and all of them as seeds
+		for i := 0; i < 25; i++ {
+			out = append(out, []byte(c17Targeted[r.Intn(len(c17Targeted))]))
+		}
+		for i := 0; i < 6; i++ {
+			seeds = append(seeds, []byte(c17Targeted[r.Intn(len(c17Targeted))]))
+		}
+	}
 	// GRB: edits of 8-byte length / count fields
 	var grbStream []byte
 	var grbOffs []int
